@@ -55,6 +55,8 @@ def histOps (w : World) (ws : List String) : Option (List (Op String)) :=
   | ["clone", dst, a] => do let dst ← dst.toNat?; let a ← a.toNat?; pure [.map dst a w.cloneFn]
   | ["poke", r, i, j, payload] => do
     let r ← r.toNat?; let i ← i.toNat?; let j ← j.toNat?; pure [.setAt r i j payload]
+  | ["bump", r, i, j] => do
+    let r ← r.toNat?; let i ← i.toNat?; let j ← j.toNat?; pure [.updAt r i j fun x => "h(" ++ x ++ ")"]
   | ["swap_rows", r, a, b] => do
     let r ← r.toNat?; let a ← a.toNat?; let b ← b.toNat?; pure [.swapRows r a b]
   | ["swap_cols", r, a, b] => do
